@@ -1,4 +1,5 @@
 """C14 — splitting a view yields an exact, ordered, non-overlapping tiling (clauses)."""
+import re
 from ..cfg import Dom, loop_blocks
 from ..engines import index_rules, ranges, witness
 from ..engines.validators import closure_return, subst
@@ -358,8 +359,9 @@ def aliasing(rep, prog, rule):
                 rep.bad(rule, "clone|%s" % name, ctors[0].at, "the part is built from %s, not "
                         "from the clone made in this iteration" % fmt(a0))
         else:
-            rep.bad(rule, "clone|%s" % name, f.loc, "clones=%d constructors=%d in %s"
-                    % (len(clones), len(ctors), name))
+            # other shapes (e.g. the parts are built inside a closure): looked at by `positions`
+            rep.unk(rule, "clone|%s" % name, f.loc, "clones=%d constructors=%d in %s: shape of "
+                    "the split not recognised" % (len(clones), len(ctors), name))
     unsafe_marker = [i for i in prog.impls if i.get("unsafe") and
                      i.get("trait", "").endswith(("marker::Send", "marker::Sync"))]
     for i in unsafe_marker:
@@ -367,6 +369,73 @@ def aliasing(rep, prog, rule):
             rep.ok(rule, "marker|%s" % i["trait_ref"], i["at"], "unsafe impl for UnsafeImageMut")
         else:
             rep.bad(rule, "marker|%s" % i["trait_ref"], i["at"], "unsafe impl %s" % i["trait_ref"])
+
+
+def positions(rep, prog, rule):
+    rep.rule(rule, "every part a split builds itself (constructor call with an explicit position on "
+             "the split axis) is placed at a running sum of the sizes of the parts before it "
+             "(an accumulator that starts at the start argument and grows by each part's size); a "
+             "position computed as start + index * own_size, where the size differs between parts "
+             "(the first size %% n parts are one larger), overlaps the previous part and leaves "
+             "the end of the band uncovered")
+    n = 0
+    for f, m, who in split_impls(prog):
+        fs = [f] + list(f.closures())
+        axis = SPLITS[m]
+        for g in fs:
+            gs = Sym(g)
+            for c in g.calls():
+                if not re.search(r"TypedCroppedImage(Mut)?::<'a, V>::(new|from_ref|from_mut_ref)$", c.name) \
+                        and not re.search(r"(TypedImageRef|TypedImage)::<'a, P>::(new|from_pixels_slice)$", c.name):
+                    continue
+                if len(c.args) < 5 or "TypedCroppedImage" not in c.name:
+                    continue
+                n += 1
+                rep.touch(f)
+                pos = gs.operand(c.args[2 if axis == "height" else 1], (c.bb, "term"))
+                size = gs.operand(c.args[4 if axis == "height" else 3], (c.bb, "term"))
+                key = "%s|position" % f.name
+                p0 = pos
+                while p0[0] in ("cast", "ovf"):
+                    p0 = p0[2] if p0[0] == "cast" else p0[1]
+                s = fmt(p0)
+                if p0[0] == "local":
+                    # accumulator: defs = {start, acc + size}
+                    defs = [gs.rvalue(rv, bb, (bb, j)) for (bb, j, rv, w) in g.defs().get(p0[1], [])]
+                    adds = [d for d in defs if "Add" in fmt(d) and fmt(p0) in fmt(d)]
+                    if adds and len(defs) >= 2:
+                        rep.ok(rule, key, c.at, "position is the accumulator %s" % s)
+                    else:
+                        rep.unk(rule, key, c.at, "position %s" % s)
+                    continue
+                if g is f and p0[0] in ("param", "field", "bin") and "Mul" not in s:
+                    rep.ok(rule, key, c.at, "position %s (delegating wrapper)" % s[:80], nontrivial=False)
+                    continue
+                # start + i * size ?
+                mul = None
+
+                def find_mul(x):
+                    nonlocal mul
+                    if isinstance(x, tuple) and x:
+                        if x[0] == "bin" and x[1] == "Mul":
+                            mul = x
+                        for y in x:
+                            if isinstance(y, tuple):
+                                find_mul(y)
+                find_mul(p0)
+                if mul is not None:
+                    factors = [mul[2], mul[3]]
+                    sized = [x for x in factors if fmt(x) == fmt(size) or
+                             (x[0] == "local" and len(gs.defs.get(x[1], [])) >= 2)]
+                    if sized:
+                        rep.bad(rule, key + "|index-times-size", c.at, "%s places part i at %s, i.e. "
+                                "index times the part's own size, but the parts are not equally large "
+                                "(the first size %% n parts get one more): from part size %% n on the "
+                                "position is too small, the part overlaps its predecessor and the end "
+                                "of the band is covered by no part" % (f.name, s[:100]))
+                        continue
+                rep.unk(rule, key, c.at, "position %s: not an accumulator" % s[:100])
+    rep.floor(rule, "part constructors with explicit positions", n, 4)
 
 
 def run(rep, tier):
@@ -377,6 +446,7 @@ def run(rep, tier):
         rep.call(count, rep, prog, "C14.count")
         rep.call(offsets, rep, prog, "C14.offsets")
         rep.call(aliasing, rep, prog, "C14.aliasing")
+        rep.call(positions, rep, prog, "C14.positions")
         if cfg != "wasm":
             n = rep.call(c03.arith, rep, prog, "C14.arith", only=lambda f: "split_by_" in f.name) or 0
             rep.floor("C14.arith", "arithmetic asserts in splits", n, 40)
